@@ -65,6 +65,8 @@ class _PlCore(Contract):
         if isinstance(fc, PP.FrameP) and co.space is lf.space:
             out["failure_cases_are_the_rows_the_mask_marks_false"] = fc.space is lf.space and SBool(fc.sel(i) == z3.And(lf.sel(i), z3.Not(co.cols[KEY].null(i)), z3.Not(core.as_z3_bool(co.cols[KEY].at(i)))))
             out["failure_cases_show_the_checked_column_only"] = list(fc.cols) == ["a"]
+            # (failure_cases_metadata numbers the i-th failure case by the i-th false entry of the mask)
+            out["failure_cases_come_in_row_order"] = getattr(fc, "rows_in_data_order", True) is True
         else:
             out["failure_cases_are_a_frame"] = isinstance(fc, PP.FrameP)
         return out
@@ -389,6 +391,36 @@ def _nullable_replay(self, rec):
     return thunk
 
 
+def _unique_replay(self, rec):
+    def thunk():
+        """two different repeated values, not in ascending order: the lazy report names each duplicate under its own row index"""
+        import warnings
+
+        import polars as pl
+        import pandera as pa
+        import pandera.polars as pp
+
+        warnings.simplefilter("ignore")
+        data = [3, 1, 3, 1, 7]
+        obs, bad = {}, False
+        for label, schema in (("Column(unique=True)", pp.DataFrameSchema({"a": pp.Column(int, unique=True)})),
+                              ("DataFrameSchema(unique=['a'])", pp.DataFrameSchema({"a": pp.Column(int)}, unique=["a"]))):
+            try:
+                schema.validate(pl.DataFrame({"a": data}), lazy=True)
+                obs[label] = "accepted"
+                bad = True
+            except pa.errors.SchemaErrors as e:
+                fc = e.failure_cases
+                pairs = sorted((int(i), str(v)) for i, v in zip(fc["index"].to_list(), fc["failure_case"].to_list()) if i is not None)
+                wrong = [(i, v) for i, v in pairs if str(data[i]) not in v]
+                obs[label] = {"(row index, reported value)": pairs, "pairs whose value is not the value of that row": wrong}
+                bad = bad or bool(wrong)
+        return bad, obs
+
+    return thunk
+
+
+PolarsCheckUnique.concretize = _unique_replay
 PolarsCheckNullable.concretize = _nullable_replay
 PolarsCheckNullable.bounded_standin = staticmethod(_standin("nullable"))
 PolarsCheckUnique.bounded_standin = staticmethod(_standin("unique"))
